@@ -9,7 +9,7 @@ mkdir -p "$out"
 cp "$src/patch.diff" "$src/demo.py" "$src/meta.json" "$out/" 2>/dev/null
 git -C /repo worktree add -q --detach "$wt" HEAD || exit 2
 # the demos were written against their own worktree path: rewrite it
-sed "s#/tmp/seed[0-9]*_C[0-9]*#$wt#g" "$src/demo.py" > "$wt/_demo.py"
+sed -e "s#/tmp/seed7/C[0-9][0-9]#$wt#g" -e "s#/tmp/seed[0-9]*_C[0-9]*#$wt#g" "$src/demo.py" > "$wt/_demo.py"
 (cd "$wt" && PYTHONPATH="$wt/Python" timeout 600 /venv/bin/python _demo.py > /tmp/seed_demo_$$.log 2>&1); d0=$?
 if ! git -C "$wt" apply "$src/patch.diff"; then echo "$name: patch does not apply"; git -C /repo worktree remove --force "$wt"; exit 2; fi
 (cd "$wt" && PYTHONPATH="$wt/Python" timeout 600 /venv/bin/python _demo.py > /tmp/seed_demo_$$.log 2>&1); d1=$?
